@@ -15,6 +15,7 @@ var c04Init bool
 func c04Setup() {
 	if !c04Init {
 		common.Init(0, "verif.ini", "mainnet")
+		Init()
 		c04Init = true
 	}
 	common.SetBlockHeight(1 << 40)
@@ -39,6 +40,7 @@ func c04NewState() *AccountDB {
 	st.SetNonce(c04A, 5)
 	st.SetState(c04A, c04K[0], common.Hash{31: 0x11})
 	st.SetCode(c04A, []byte{1, 2, 3})
+	st.SetData(c04A, []byte("k"), []byte{5})
 	st.SetBalance(c04B, big.NewInt(20))
 	root, err := st.Commit(true)
 	if err != nil {
@@ -52,14 +54,28 @@ func c04NewState() *AccountDB {
 	return st2
 }
 
+var c04KindNames = []string{"SetNonce", "IncreaseNonce", "SetState", "SetCode", "CreateAccount", "Suicide", "AddBalance", "SubBalance", "SetBalance",
+	"AddRefund", "AddLog", "AddAddressToAccessList", "AddSlotToAccessList", "SetTransientState", "SetData"}
+
+// c04Last names the mutator(s) applied since the snapshot that is being reverted (for labels)
+var c04Last string
+
 // one state-mutating call; kind, address, key and value are symbolic choices / values
 func c04Mutate(st *AccountDB, tag string) {
 	kind := symx.Choice(tag+"kind", 15)
-	a := c04Addr(symx.Choice(tag+"addr", 3))
-	key := c04K[symx.Choice(tag+"key", 2)]
+	ai := symx.Choice(tag+"addr", 3)
+	a := c04Addr(ai)
+	c04Last = c04KindNames[kind] + " on " + []string{"A", "B", "C"}[ai]
+	key := c04K[0]
+	if kind == 2 || kind == 12 || kind == 13 {
+		key = c04K[symx.Choice(tag+"key", 2)]
+	}
 	v8 := symx.U8(tag + "val")
 	val := common.Hash{31: v8}
-	amt := new(big.Int).SetUint64(uint64(v8))
+	amt := big.NewInt(0)
+	if kind >= 6 && kind <= 8 {
+		amt = big.NewInt([]int64{0, 1, 1000, 5000}[symx.Choice(tag+"amt", 4)]) // below, at and above the balances in the pre-state
+	}
 	switch kind {
 	case 0:
 		st.SetNonce(a, uint64(v8))
@@ -117,7 +133,6 @@ func c04Observe(st *AccountDB) *c04Obs {
 		o.bal[i] = st.GetBalance(a)
 		o.code[i] = st.GetCode(a)
 		o.codeHash[i] = st.GetCodeHash(a)
-		o.exist[i], o.empty[i], o.sui[i] = st.Exist(a), st.Empty(a), st.HasSuicided(a)
 		o.inAL[i] = st.AddressInAccessList(a)
 		o.data[i] = st.GetData(a, []byte("k"))
 		for k := 0; k < 2; k++ {
@@ -125,6 +140,9 @@ func c04Observe(st *AccountDB) *c04Obs {
 			o.tslot[i][k] = st.GetTransientState(a, c04K[k])
 			_, o.slotAL[i][k] = st.SlotInAccessList(a, c04K[k])
 		}
+		// Empty() consults the per-object storage cache; it is observed after the slot reads above so
+		// that the cache holds the same keys at every observation
+		o.exist[i], o.empty[i], o.sui[i] = st.Exist(a), st.Empty(a), st.HasSuicided(a)
 	}
 	return o
 }
@@ -137,7 +155,7 @@ func c04Same(x, y *c04Obs) {
 		symx.Check(x.bal[i].Cmp(y.bal[i]) == 0, "balance restored")
 		symx.Check(bytes.Equal(x.code[i], y.code[i]) && x.codeHash[i] == y.codeHash[i], "code and code hash restored")
 		symx.Check(x.exist[i] == y.exist[i], "existence restored")
-		symx.Check(x.empty[i] == y.empty[i], "emptiness restored")
+		symx.Check(x.empty[i] == y.empty[i], "emptiness restored [after reverting "+c04Last+"]")
 		symx.Check(x.sui[i] == y.sui[i], "self-destruct flag restored")
 		symx.Check(x.inAL[i] == y.inAL[i], "access list (address) restored")
 		symx.Check(bytes.Equal(x.data[i], y.data[i]), "account data restored")
@@ -157,7 +175,7 @@ func VerifC04_RevertOne() {
 	st := c04NewState()
 	twin := c04NewState()
 	if symx.Choice("pre", 2) == 1 {
-		kind := symx.Choice("prekind", 4)
+		kind := symx.Choice("prekind", 7)
 		for _, s := range []*AccountDB{st, twin} {
 			switch kind {
 			case 0:
@@ -168,6 +186,12 @@ func VerifC04_RevertOne() {
 				s.SetTransientState(c04A, c04K[0], common.Hash{31: 9})
 			case 3:
 				s.AddBalance(c04C, big.NewInt(7))
+			case 4:
+				s.SetState(c04A, c04K[0], common.Hash{}) // a committed slot removed, not yet finalised
+			case 5:
+				s.SetCode(c04B, []byte{9})
+			case 6:
+				s.RemoveData(c04A, []byte("k")) // committed data removed, not yet finalised
 			}
 		}
 	}
@@ -196,8 +220,11 @@ func VerifC04_RevertNested() {
 	if symx.Thorough() {
 		c04Mutate(st, "op3")
 	}
+	c04Last = "an outer snapshot"
 	st.RevertToSnapshot(outer)
 	c04Same(before, c04Observe(st))
 	symx.Check(st.IntermediateRoot(true) == twin.IntermediateRoot(true), "root after nested reverts equals the untouched root")
 	symx.Reach("end")
 }
+
+
